@@ -43,7 +43,22 @@ func c18Files() map[string]string {
 		"flows/w3.yaml":       inertFlow("w3", "a.com/*"),
 		"flows/fl.yaml":       limiterFlow("fl", "a.com/l", "cq").YAML(),
 		"flows/fc.yaml":       limiterFlow("fc", "b.io/c", "cc").YAML(),
-		"quotas/q.yaml":       strings.ReplaceAll(strings.ReplaceAll(c08Quota, "a.com/p1", "a.com/l"), "max: 100000", "max: 3\n        group_by_header: x-grp"),
+		"quotas/q.yaml": strings.ReplaceAll(strings.ReplaceAll(c08Quota, "a.com/p1", "a.com/l"), "max: 100000", "max: 3\n        group_by_header: x-grp") +
+			"  - id: qq\n    filter:\n      url: a.com/q\n    strategy:\n      fixed_window:\n        max: 1\n        interval: 1\n        interval_unit: second\n",
+		// a Queue processor: its processing loop, TTL watcher and removal goroutines run beside the transactions
+		"flows/fq.yaml": flowDef{
+			Name: "fq", URL: "a.com/q",
+			Procs: []procDef{
+				{Key: "queue", Type: "Queue", Params: [][2]string{{"quota_id", "qq"}, {"ttl_seconds", "1"}, {"queue_size", "3"}}},
+				{Key: "gen", Type: "GenerateResponse", Params: [][2]string{{"status", "429"}, {"body", "queued-out"}}},
+			},
+			Req: []connDef{
+				{FromStream: "start", ToProc: "queue"},
+				{FromProc: "queue", Cond: "allowed", ToStream: "end"},
+				{FromProc: "queue", Cond: "blocked", ToProc: "gen"},
+			},
+			Resp: []connDef{{FromProc: "gen", ToStream: "end"}},
+		}.YAML(),
 		"quotas/qc.yaml":      c18ConcQuota,
 		"gateway_config.yaml": "gateway:\n  note: old\n",
 		"metrics.yaml":        string(m),
@@ -64,11 +79,11 @@ func runC18R(s *kernel.Sim) {
 		urls []int
 		grp  string
 	}
-	paths := [][2]string{{"a.com", "/p1"}, {"a.com", "/p2"}, {"a.com", "/l"}, {"b.io", "/c"}, {"a.com", "/zz"}}
+	paths := [][2]string{{"a.com", "/p1"}, {"a.com", "/p2"}, {"a.com", "/l"}, {"b.io", "/c"}, {"a.com", "/zz"}, {"a.com", "/q"}}
 	plans := make([]plan, nTasks)
 	for i := range plans {
 		for k := tp.Range(1, 3); k > 0; k-- {
-			plans[i].urls = append(plans[i].urls, tp.Weighted([]int{2, 1, 3, 3, 1}))
+			plans[i].urls = append(plans[i].urls, tp.Weighted([]int{2, 1, 3, 3, 1, 2}))
 		}
 		plans[i].grp = []string{"", "a", "b"}[tp.Choose(3)]
 	}
